@@ -26,6 +26,12 @@ def units(tier):
     for q in ("_read_bytes", "_read_line", "_parse_rtcm3", "_parse_ubx", "_parse_nmea", "parse", "_do_error", "__next__", "__init__"):
         us += func_units(f"{R}.{q}", tier)
     us += func_units(f"{R}.read", tier)
+    # frames with unknown message numbers are returnable: unknown identities always construct (stub)
+    Mq = "pyrtcm.rtcmmessage.RTCMMessage"
+    us += func_units(Mq + "._get_dict", tier)
+    us += func_units(Mq + ".identity", tier)
+    us += func_units(Mq + "._do_attributes", tier, only=lambda inst: inst["identity"].startswith("unknown"))
+    us += func_units(Mq + ".__init__", tier)
     # socket-backed streams: SocketWrapper refines the stream contract (C11)
     for q in ("_recv", "read", "readline", "__init__"):
         us += func_units(f"pyrtcm.socketwrapper.SocketWrapper.{q}", tier, only=lambda i: i != "chunked")
